@@ -120,7 +120,12 @@ impl BatchAppSpec {
                     overwrite: None,
                 },
                 InPlugin::GridSearch,
-                InPlugin::LoadBalancerCustom { column: "w".into() },
+                // numeric weights, or (A* configurations) weights named by category
+                if self.astar {
+                    InPlugin::LoadBalancerCategorical { column: "w".into(), with_default: self.with_summary }
+                } else {
+                    InPlugin::LoadBalancerCustom { column: "w".into() }
+                },
             ],
             5 => vec![
                 InPlugin::GridSearch,
@@ -330,6 +335,11 @@ pub fn query_json(app: &BatchAppSpec, q: &QuerySpec, qid: usize) -> Value {
             Malform::WeightText => {
                 o.insert("w".into(), json!("heavy"));
             }
+            _ if app.astar => {
+                // categorical weights; a name outside the mapping only where a default exists
+                let names = ["light", "medium", "heavy", "unlisted"];
+                o.insert("w".into(), json!(names[qid % if app.with_summary { 4 } else { 3 }]));
+            }
             _ => {
                 o.insert("w".into(), json!(1.0 + (qid % 5) as f64));
             }
@@ -444,6 +454,19 @@ pub fn expansion(app: &BatchAppSpec, q: &QuerySpec) -> Expansion {
             }
             InPlugin::LoadBalancerHaversine => {
                 // needs numeric origin and destination coordinates (matched already if we got here)
+            }
+            InPlugin::LoadBalancerCategorical { .. } => {
+                // a text is what this form expects ("heavy" is one of the names); only a
+                // missing weight fails
+                if matches!(q.malform, Malform::WeightMissing) {
+                    if expanded {
+                        failed_elems += elems.len();
+                        elems.clear();
+                        dropped_family = true;
+                    } else {
+                        whole_failed = true;
+                    }
+                }
             }
             InPlugin::LoadBalancerCustom { .. } => {
                 if matches!(q.malform, Malform::WeightMissing | Malform::WeightText) {
@@ -869,6 +892,10 @@ pub fn expansion_json(app: &BatchAppSpec, q: &Value) -> Option<Expansion> {
                             _ => Step::Fail,
                         }
                     }
+                },
+                InPlugin::LoadBalancerCategorical { column, with_default } => match e.get(column).and_then(|v| v.as_str()) {
+                    Some(name) if e.is_object() && (*with_default || ["light", "medium", "heavy"].contains(&name)) => Step::Ok(vec![e.clone()]),
+                    _ => Step::Fail,
                 },
                 InPlugin::LoadBalancerCustom { column } => match e.get(column).and_then(|v| v.as_f64()) {
                     Some(_) if e.is_object() => Step::Ok(vec![e.clone()]),
